@@ -348,3 +348,176 @@ pub(crate) fn rg_load_default() {
     rg_load::<DefaultConfig>();
     vcover!("rg_load_default_end");
 }
+
+// C08 – a maximally hostile but *deterministic* environment: before every step of the read at
+// which it can act, a writer completes a store of another value and/or pays the reader's debt
+// and/or helps. Whatever it does, the read performs a bounded number of own steps and every loop
+// exits (unwinding assertions on): a retry loop that such a writer can keep spinning is a failed
+// obligation. All 8 subsets of {pay, write, help} x {fast slots free, fast slots taken}.
+fn hostile_load<C: Config + Default>(script: u8, full: bool) {
+    l2_ledger();
+    let storage: AtomicPtr<Obj> = AtomicPtr::new(model::ptr(0) as *mut Obj);
+    let helper = list_h::fresh_node();
+    let node = list_h::setup_thread_node();
+    if full {
+        let mut i = 0;
+        while i < 8 {
+            list_h::poke_slot(node, i, 0x7770);
+            i += 1;
+        }
+    }
+    // other writers are in the middle of walking my node and never leave
+    list_h::poke_active_writers(node, 2);
+    let st = strategy::<C>();
+    env::install(&storage, node, helper, 1);
+    env().scripted = script;
+    let r: HybridProtection<TP> = unsafe { <HybridStrategy<C> as InnerStrategy<TP>>::load(&st, &storage) };
+    env::uninstall();
+    let id = model::index_of(prot_ptr(&r));
+    vassert!(id.is_some(), "load_returns_an_object_pointer");
+    vassert!(env().in_hist[id.unwrap()], "identity_in_history_of_this_storage");
+    vassert!(model::steps() <= K_LOAD, "load_step_bound_against_a_hostile_writer");
+    core::mem::forget(r);
+}
+
+fn nop() {}
+// @harness name=hostile_load_s1_free props=C08 tier=quick flavour=nostd timeout=1800 fn=HybridStrategy::load+HybridProtection::attempt+HybridProtection::fallback
+#[cfg_attr(kani, kani::proof)]
+#[cfg_attr(kani, kani::stub(crate::debt::LocalNode::with, crate::debt::verif_h::list_h::with_static))]
+#[cfg_attr(kani, kani::stub(crate::debt::Node::get, crate::debt::verif_h::list_h::node_get_unexpected))]
+#[cfg_attr(kani, kani::stub(core::hint::spin_loop, nop))]
+#[cfg_attr(kani, kani::unwind(12))]
+pub(crate) fn hostile_load_s1_free() {
+    hostile_load::<DefaultConfig>(1, false);
+    vcover!("hostile_load_s1_free_end");
+}
+// @harness name=hostile_load_s1_full props=C08 tier=quick flavour=nostd timeout=1800 fn=HybridStrategy::load+HybridProtection::attempt+HybridProtection::fallback
+#[cfg_attr(kani, kani::proof)]
+#[cfg_attr(kani, kani::stub(crate::debt::LocalNode::with, crate::debt::verif_h::list_h::with_static))]
+#[cfg_attr(kani, kani::stub(crate::debt::Node::get, crate::debt::verif_h::list_h::node_get_unexpected))]
+#[cfg_attr(kani, kani::stub(core::hint::spin_loop, nop))]
+#[cfg_attr(kani, kani::unwind(12))]
+pub(crate) fn hostile_load_s1_full() {
+    hostile_load::<DefaultConfig>(1, true);
+    vcover!("hostile_load_s1_full_end");
+}
+// @harness name=hostile_load_s2_free props=C08 tier=thorough flavour=nostd timeout=1800 fn=HybridStrategy::load+HybridProtection::attempt+HybridProtection::fallback
+#[cfg_attr(kani, kani::proof)]
+#[cfg_attr(kani, kani::stub(crate::debt::LocalNode::with, crate::debt::verif_h::list_h::with_static))]
+#[cfg_attr(kani, kani::stub(crate::debt::Node::get, crate::debt::verif_h::list_h::node_get_unexpected))]
+#[cfg_attr(kani, kani::stub(core::hint::spin_loop, nop))]
+#[cfg_attr(kani, kani::unwind(12))]
+pub(crate) fn hostile_load_s2_free() {
+    hostile_load::<DefaultConfig>(2, false);
+    vcover!("hostile_load_s2_free_end");
+}
+// @harness name=hostile_load_s2_full props=C08 tier=thorough flavour=nostd timeout=1800 fn=HybridStrategy::load+HybridProtection::attempt+HybridProtection::fallback
+#[cfg_attr(kani, kani::proof)]
+#[cfg_attr(kani, kani::stub(crate::debt::LocalNode::with, crate::debt::verif_h::list_h::with_static))]
+#[cfg_attr(kani, kani::stub(crate::debt::Node::get, crate::debt::verif_h::list_h::node_get_unexpected))]
+#[cfg_attr(kani, kani::stub(core::hint::spin_loop, nop))]
+#[cfg_attr(kani, kani::unwind(12))]
+pub(crate) fn hostile_load_s2_full() {
+    hostile_load::<DefaultConfig>(2, true);
+    vcover!("hostile_load_s2_full_end");
+}
+// @harness name=hostile_load_s3_free props=C08 tier=quick flavour=nostd timeout=1800 fn=HybridStrategy::load+HybridProtection::attempt+HybridProtection::fallback
+#[cfg_attr(kani, kani::proof)]
+#[cfg_attr(kani, kani::stub(crate::debt::LocalNode::with, crate::debt::verif_h::list_h::with_static))]
+#[cfg_attr(kani, kani::stub(crate::debt::Node::get, crate::debt::verif_h::list_h::node_get_unexpected))]
+#[cfg_attr(kani, kani::stub(core::hint::spin_loop, nop))]
+#[cfg_attr(kani, kani::unwind(12))]
+pub(crate) fn hostile_load_s3_free() {
+    hostile_load::<DefaultConfig>(3, false);
+    vcover!("hostile_load_s3_free_end");
+}
+// @harness name=hostile_load_s3_full props=C08 tier=quick flavour=nostd timeout=1800 fn=HybridStrategy::load+HybridProtection::attempt+HybridProtection::fallback
+#[cfg_attr(kani, kani::proof)]
+#[cfg_attr(kani, kani::stub(crate::debt::LocalNode::with, crate::debt::verif_h::list_h::with_static))]
+#[cfg_attr(kani, kani::stub(crate::debt::Node::get, crate::debt::verif_h::list_h::node_get_unexpected))]
+#[cfg_attr(kani, kani::stub(core::hint::spin_loop, nop))]
+#[cfg_attr(kani, kani::unwind(12))]
+pub(crate) fn hostile_load_s3_full() {
+    hostile_load::<DefaultConfig>(3, true);
+    vcover!("hostile_load_s3_full_end");
+}
+// @harness name=hostile_load_s4_free props=C08 tier=thorough flavour=nostd timeout=1800 fn=HybridStrategy::load+HybridProtection::attempt+HybridProtection::fallback
+#[cfg_attr(kani, kani::proof)]
+#[cfg_attr(kani, kani::stub(crate::debt::LocalNode::with, crate::debt::verif_h::list_h::with_static))]
+#[cfg_attr(kani, kani::stub(crate::debt::Node::get, crate::debt::verif_h::list_h::node_get_unexpected))]
+#[cfg_attr(kani, kani::stub(core::hint::spin_loop, nop))]
+#[cfg_attr(kani, kani::unwind(12))]
+pub(crate) fn hostile_load_s4_free() {
+    hostile_load::<DefaultConfig>(4, false);
+    vcover!("hostile_load_s4_free_end");
+}
+// @harness name=hostile_load_s4_full props=C08 tier=thorough flavour=nostd timeout=1800 fn=HybridStrategy::load+HybridProtection::attempt+HybridProtection::fallback
+#[cfg_attr(kani, kani::proof)]
+#[cfg_attr(kani, kani::stub(crate::debt::LocalNode::with, crate::debt::verif_h::list_h::with_static))]
+#[cfg_attr(kani, kani::stub(crate::debt::Node::get, crate::debt::verif_h::list_h::node_get_unexpected))]
+#[cfg_attr(kani, kani::stub(core::hint::spin_loop, nop))]
+#[cfg_attr(kani, kani::unwind(12))]
+pub(crate) fn hostile_load_s4_full() {
+    hostile_load::<DefaultConfig>(4, true);
+    vcover!("hostile_load_s4_full_end");
+}
+// @harness name=hostile_load_s5_free props=C08 tier=thorough flavour=nostd timeout=1800 fn=HybridStrategy::load+HybridProtection::attempt+HybridProtection::fallback
+#[cfg_attr(kani, kani::proof)]
+#[cfg_attr(kani, kani::stub(crate::debt::LocalNode::with, crate::debt::verif_h::list_h::with_static))]
+#[cfg_attr(kani, kani::stub(crate::debt::Node::get, crate::debt::verif_h::list_h::node_get_unexpected))]
+#[cfg_attr(kani, kani::stub(core::hint::spin_loop, nop))]
+#[cfg_attr(kani, kani::unwind(12))]
+pub(crate) fn hostile_load_s5_free() {
+    hostile_load::<DefaultConfig>(5, false);
+    vcover!("hostile_load_s5_free_end");
+}
+// @harness name=hostile_load_s5_full props=C08 tier=thorough flavour=nostd timeout=1800 fn=HybridStrategy::load+HybridProtection::attempt+HybridProtection::fallback
+#[cfg_attr(kani, kani::proof)]
+#[cfg_attr(kani, kani::stub(crate::debt::LocalNode::with, crate::debt::verif_h::list_h::with_static))]
+#[cfg_attr(kani, kani::stub(crate::debt::Node::get, crate::debt::verif_h::list_h::node_get_unexpected))]
+#[cfg_attr(kani, kani::stub(core::hint::spin_loop, nop))]
+#[cfg_attr(kani, kani::unwind(12))]
+pub(crate) fn hostile_load_s5_full() {
+    hostile_load::<DefaultConfig>(5, true);
+    vcover!("hostile_load_s5_full_end");
+}
+// @harness name=hostile_load_s6_free props=C08 tier=thorough flavour=nostd timeout=1800 fn=HybridStrategy::load+HybridProtection::attempt+HybridProtection::fallback
+#[cfg_attr(kani, kani::proof)]
+#[cfg_attr(kani, kani::stub(crate::debt::LocalNode::with, crate::debt::verif_h::list_h::with_static))]
+#[cfg_attr(kani, kani::stub(crate::debt::Node::get, crate::debt::verif_h::list_h::node_get_unexpected))]
+#[cfg_attr(kani, kani::stub(core::hint::spin_loop, nop))]
+#[cfg_attr(kani, kani::unwind(12))]
+pub(crate) fn hostile_load_s6_free() {
+    hostile_load::<DefaultConfig>(6, false);
+    vcover!("hostile_load_s6_free_end");
+}
+// @harness name=hostile_load_s6_full props=C08 tier=thorough flavour=nostd timeout=1800 fn=HybridStrategy::load+HybridProtection::attempt+HybridProtection::fallback
+#[cfg_attr(kani, kani::proof)]
+#[cfg_attr(kani, kani::stub(crate::debt::LocalNode::with, crate::debt::verif_h::list_h::with_static))]
+#[cfg_attr(kani, kani::stub(crate::debt::Node::get, crate::debt::verif_h::list_h::node_get_unexpected))]
+#[cfg_attr(kani, kani::stub(core::hint::spin_loop, nop))]
+#[cfg_attr(kani, kani::unwind(12))]
+pub(crate) fn hostile_load_s6_full() {
+    hostile_load::<DefaultConfig>(6, true);
+    vcover!("hostile_load_s6_full_end");
+}
+// @harness name=hostile_load_s7_free props=C08 tier=quick flavour=nostd timeout=1800 fn=HybridStrategy::load+HybridProtection::attempt+HybridProtection::fallback
+#[cfg_attr(kani, kani::proof)]
+#[cfg_attr(kani, kani::stub(crate::debt::LocalNode::with, crate::debt::verif_h::list_h::with_static))]
+#[cfg_attr(kani, kani::stub(crate::debt::Node::get, crate::debt::verif_h::list_h::node_get_unexpected))]
+#[cfg_attr(kani, kani::stub(core::hint::spin_loop, nop))]
+#[cfg_attr(kani, kani::unwind(12))]
+pub(crate) fn hostile_load_s7_free() {
+    hostile_load::<DefaultConfig>(7, false);
+    vcover!("hostile_load_s7_free_end");
+}
+// @harness name=hostile_load_s7_full props=C08 tier=quick flavour=nostd timeout=1800 fn=HybridStrategy::load+HybridProtection::attempt+HybridProtection::fallback
+#[cfg_attr(kani, kani::proof)]
+#[cfg_attr(kani, kani::stub(crate::debt::LocalNode::with, crate::debt::verif_h::list_h::with_static))]
+#[cfg_attr(kani, kani::stub(crate::debt::Node::get, crate::debt::verif_h::list_h::node_get_unexpected))]
+#[cfg_attr(kani, kani::stub(core::hint::spin_loop, nop))]
+#[cfg_attr(kani, kani::unwind(12))]
+pub(crate) fn hostile_load_s7_full() {
+    hostile_load::<DefaultConfig>(7, true);
+    vcover!("hostile_load_s7_full_end");
+}
